@@ -6,10 +6,11 @@ SPEC = dc.spec(
                "that ends with the shutdown branch of the WAL loop (FlushToWAL; CreateCheckpoint), a restart on the final image "
                "succeeds, replays nothing (no variable-length record can be duplicated), deletes the old WAL and leaves every primary "
                "file identical; C35_same_queries: identical files give identical query results.",
-    level_note="No axioms.  The tie queries every bucket in the workload process just before the shutdown step and compares with the "
-               "restart's results on the final image (real code), and checks the model on the same image.  The shutdown is the "
-               "synchronous-mode equivalent of the loop's shutdown branch (the same two calls); Shutdown() racing with concurrent "
-               "writers (RequestFlush finding haveWALWriter=false) is outside the statement and not exercised (C07/C18).",
+    level_note="No axioms.  The tie queries every bucket in the workload process just before the shutdown and compares with the "
+               "restart's results on the final image (real code), and checks the model on the same image.  Half of the histories "
+               "run the REAL writer goroutine (SyncWAL) and call Shutdown() (the loop's shutdown branch); the other half run in "
+               "synchronous mode with checkpoints/rotations before the same two calls.  Shutdown() racing with concurrent writers "
+               "(RequestFlush finding haveWALWriter=false) is outside the statement and not exercised (C07/C18).",
     design_ref="§6 C35",
     rule=dc.RULE + "  C35: every history ends with a shutdown step; half of them have checkpoints/rotations before it; only the "
                    "final image is explored (one prefix per history).")
